@@ -1391,10 +1391,16 @@ def rule_prescan_exhaustive(check, rule):
         if h is None:
             continue
         hp = _prescan_helper(h)
+        if hp is not None and _visits_body_twice(h):
+            # the handler traverses the body twice: every invalidation of the first traversal -- rebinding included -- is in place
+            # when the calls are recorded, so the pre-scan is no longer what soundness rests on and its list is not constrained
+            check.holds(rule, site_of(h, h.node), 'visit_%s traverses the body twice: the pre-scan through %s is not relied upon' % (cname, hp.name),
+                        key='prescan|%s|not-relied-upon' % cname, nontrivial=False)
+            continue
         if hp is not None:
             helpers[hp.key] = hp
     if not helpers:
-        check.holds(rule, '-', 'no loop handler pre-scans through a helper (the direct forms are judged by C05.R4)', key='prescan|none', nontrivial=False)
+        check.holds(rule, '-', 'no loop handler relies on a pre-scan helper (the direct forms are judged by C05.R4)', key='prescan|none', nontrivial=False)
         return
     for hp in helpers.values():
         check.analysed(hp)
@@ -1407,53 +1413,45 @@ def rule_prescan_exhaustive(check, rule):
             check.inconclusive(rule, st, '%s: loop over ast.walk(...) not found at the top level' % hp.name, key='prescan|%s|loop' % hp.name)
             continue
         child = loop.target.id
-        # flatten the if/elif chain
-        branches = []       # (classes or None, body, test node)
-        unknown_tests = []
-        stmts = list(loop.body)
-        if len(stmts) != 1 or not isinstance(stmts[0], ast.If):
-            check.inconclusive(rule, site_of(hp, loop), '%s: the loop body is not one if/elif chain' % hp.name, key='prescan|%s|chain' % hp.name)
-            continue
-        cur = stmts[0]
-        while True:
-            t = cur.test
-            classes = None
-            if isinstance(t, ast.Call) and isinstance(t.func, ast.Name) and t.func.id == 'isinstance' and len(t.args) == 2 \
-                    and isinstance(t.args[0], ast.Name) and t.args[0].id == child:
-                classes = _ast_classes(t.args[1])
-            if classes is None:
-                unknown_tests.append(t)
-            branches.append((classes, cur.body, t))
-            if len(cur.orelse) == 1 and isinstance(cur.orelse[0], ast.If):
-                cur = cur.orelse[0]
-            else:
-                if cur.orelse:
-                    branches.append((None, cur.orelse, None))
-                break
+        # every `yield` of the loop body with the tests it sits under (polarity-normalised: `not`, `or`, `and` are taken apart)
+        def lits_of(test, pol):
+            """-> list of (atom test, polarity); an `or` under True / `and` under False is kept as one disjunctive literal"""
+            if isinstance(test, ast.UnaryOp) and isinstance(test.op, ast.Not):
+                return lits_of(test.operand, not pol)
+            if isinstance(test, ast.BoolOp) and ((isinstance(test.op, ast.And) and pol) or (isinstance(test.op, ast.Or) and not pol)):
+                out = []
+                for v_ in test.values:
+                    out += lits_of(v_, pol)
+                return out
+            return [(test, pol)]
 
-        def handed_out(body, field, guard_ok):
-            """does this branch body yield child.<field> (under no guard, or under a guard from guard_ok)?"""
-            res = []
-
-            def scan(stmts_, guards):
-                for s_ in stmts_:
-                    if isinstance(s_, ast.If):
-                        scan(s_.body, guards + [(s_.test, True)])
-                        scan(s_.orelse, guards + [(s_.test, False)])
-                    elif isinstance(s_, ast.Expr) and isinstance(s_.value, (ast.Yield, ast.YieldFrom)) and s_.value.value is not None:
-                        res.append((s_.value.value, guards))
-                    elif isinstance(s_, (ast.For, ast.While, ast.With, ast.Try)):
-                        res.append((None, guards))
-            scan(body, [])
-            for val, guards in res:
-                if val is None:
-                    continue
-                reads = [a for a in ast.walk(val) if isinstance(a, ast.Attribute) and isinstance(a.value, ast.Name) and a.value.id == child and a.attr == field]
-                if not reads:
-                    continue
-                if all(guard_ok(t_, pol) for t_, pol in guards):
-                    return val
+        def isinstance_classes(test):
+            """classes of `isinstance(child, X)`, or of a disjunction of such tests; None when it is something else"""
+            if isinstance(test, ast.Call) and isinstance(test.func, ast.Name) and test.func.id == 'isinstance' and len(test.args) == 2 \
+                    and isinstance(test.args[0], ast.Name) and test.args[0].id == child:
+                return _ast_classes(test.args[1])
+            if isinstance(test, ast.BoolOp) and isinstance(test.op, ast.Or):
+                out = []
+                for v_ in test.values:
+                    c_ = isinstance_classes(v_)
+                    if c_ is None:
+                        return None
+                    out += c_
+                return out
             return None
+
+        yields = []      # (value node, [(test, pol)], site node)
+
+        def scan(stmts_, guards):
+            for s_ in stmts_:
+                if isinstance(s_, ast.If):
+                    scan(s_.body, guards + lits_of(s_.test, True))
+                    scan(s_.orelse, guards + lits_of(s_.test, False))
+                elif isinstance(s_, ast.Expr) and isinstance(s_.value, (ast.Yield, ast.YieldFrom)) and s_.value.value is not None:
+                    yields.append((s_.value.value, guards, s_))
+                elif isinstance(s_, (ast.For, ast.While, ast.With, ast.Try)):
+                    yields.append((None, guards, s_))
+        scan(loop.body, [])
 
         def truthy_guard(field):
             def ok(t_, pol):
@@ -1463,8 +1461,7 @@ def rule_prescan_exhaustive(check, rule):
 
         def store_guard(t_, pol):
             txt = norm(t_)
-            if pol and txt in ('not isinstance(%s.ctx, ast.Load)' % child, 'isinstance(%s.ctx, (ast.Store, ast.Del))' % child,
-                               'isinstance(%s.ctx, (ast.Del, ast.Store))' % child):
+            if pol and txt in ('isinstance(%s.ctx, (ast.Store, ast.Del))' % child, 'isinstance(%s.ctx, (ast.Del, ast.Store))' % child):
                 return True
             if (not pol) and txt == 'isinstance(%s.ctx, ast.Load)' % child:
                 return True
@@ -1478,44 +1475,72 @@ def rule_prescan_exhaustive(check, rule):
         for cname, fn, guard_ok, why in need:
             n += 1
             key = 'prescan|%s|%s.%s' % (hp.name, cname, fn)
-            mine = [(cl, body, t) for cl, body, t in branches if cl is not None and cname in cl]
-            # a branch listed earlier with a test that is not understood may take the node first
-            before_unknown = False
-            for cl, body, t in branches:
-                if cl is None and t is not None:
-                    before_unknown = True
-                if cl is not None and cname in cl:
+            clean = None         # a yield of child.<fn> under: positive isinstance incl. cname + acceptable guards only
+            murky = None         # same, but some other test on the way is not understood
+            wrong_guard = None   # under the class test, but a condition other than the accepted ones
+            for val, guards, site_ in yields:
+                if val is None:
+                    continue
+                reads = [a for a in ast.walk(val) if isinstance(a, ast.Attribute) and isinstance(a.value, ast.Name) and a.value.id == child and a.attr == fn]
+                if not reads:
+                    continue
+                pos_classes = set()
+                excluded = set()
+                other = []
+                for t_, pol in guards:
+                    cl = isinstance_classes(t_)
+                    if cl is not None:
+                        if pol:
+                            pos_classes = set(cl) if not pos_classes else (pos_classes & set(cl))
+                        else:
+                            excluded |= set(cl)
+                    else:
+                        other.append((t_, pol))
+                if cname not in pos_classes or cname in excluded:
+                    continue
+                bad_ = [(t_, pol) for t_, pol in other if not guard_ok(t_, pol)]
+                if not bad_:
+                    clean = (val, site_)
                     break
-            if not mine:
-                if unknown_tests:
-                    check.inconclusive(rule, st, '%s: no branch tests for ast.%s and a test of the chain is not understood (%s)'
-                                       % (hp.name, cname, norm(unknown_tests[0])[:60]), key=key)
+                # a test that is about this very field/context but has the wrong form is a wrong guard; anything else is murky
+                if all(child + '.' in norm(t_) for t_, pol in bad_):
+                    wrong_guard = wrong_guard or (val, site_, bad_)
                 else:
-                    check.violation(rule, st, '%s has no branch for ast.%s, whose field %r binds a name (%s): rebound on the back-edge of a loop, '
-                                    'the name is not invalidated' % (hp.name, cname, fn, why), key=key,
+                    murky = murky or (val, site_, bad_)
+            mentions_class = any(cname in (isinstance_classes(t_) or []) for _v, gs, _s in yields for t_, pol in gs)
+            if clean is None:
+                if wrong_guard is not None:
+                    check.violation(rule, site_of(hp, wrong_guard[1]), '%s: the branch for ast.%s does not hand out node.%s (or only under a condition other '
+                                    'than "the field is set"%s)' % (hp.name, cname, fn, ' / "the context is not Load"' if cname == 'Name' else ''), key=key,
                                     witness=_BIND_WITNESS.get((cname, fn), why))
+                elif murky is not None:
+                    check.inconclusive(rule, site_of(hp, murky[1]), '%s: a test on the way to the ast.%s branch is not understood (%s)'
+                                       % (hp.name, cname, norm(murky[2][0][0])[:60]), key=key)
+                elif mentions_class:
+                    check.violation(rule, st, '%s: the branch for ast.%s does not hand out node.%s (or only under a condition other than '
+                                    '"the field is set"%s)' % (hp.name, cname, fn, ' / "the context is not Load"' if cname == 'Name' else ''), key=key,
+                                    witness=_BIND_WITNESS.get((cname, fn), why))
+                else:
+                    unknown_tests = [t_ for _v, gs, _s in yields for t_, pol in gs if isinstance_classes(t_) is None and child + '.' not in norm(t_)]
+                    if unknown_tests:
+                        check.inconclusive(rule, st, '%s: no branch tests for ast.%s and a test of the chain is not understood (%s)'
+                                           % (hp.name, cname, norm(unknown_tests[0])[:60]), key=key)
+                    else:
+                        check.violation(rule, st, '%s has no branch for ast.%s, whose field %r binds a name (%s): rebound on the back-edge of a loop, '
+                                        'the name is not invalidated' % (hp.name, cname, fn, why), key=key,
+                                        witness=_BIND_WITNESS.get((cname, fn), why))
                 continue
-            cl, body, t = mine[0]
-            if before_unknown:
-                check.inconclusive(rule, site_of(hp, t), '%s: a test ahead of the ast.%s branch is not understood' % (hp.name, cname), key=key)
-                continue
-            val = handed_out(body, fn, guard_ok)
-            if val is None:
-                check.violation(rule, site_of(hp, t), '%s: the branch for ast.%s does not hand out node.%s (or only under a condition other than '
-                                '"the field is set"%s)' % (hp.name, cname, fn, ' / "the context is not Load"' if cname == 'Name' else ''), key=key,
-                                witness=_BIND_WITNESS.get((cname, fn), why))
-                continue
+            val, site_ = clean
             if cname == 'alias':
                 # `import a.b` binds `a`; `import a.b as c` binds `c`: (asname or name).split('.')[0]
                 txt = norm(val)
-                other = 'asname' if fn == 'name' else 'name'
                 ok = '%s.asname or %s.name' % (child, child) in txt
                 idx = [x for x in ast.walk(val) if isinstance(x, ast.Subscript) and isinstance(x.slice, ast.Constant)]
                 if ok and ('split' not in txt or (idx and idx[0].slice.value == 0)):
-                    check.holds(rule, site_of(hp, t), '%s: alias binds (asname or name).split(".")[0]' % hp.name, key=key)
+                    check.holds(rule, site_of(hp, site_), '%s: alias binds (asname or name).split(".")[0]' % hp.name, key=key)
                 else:
-                    check.violation(rule, site_of(hp, t), '%s: the name an import binds is `asname` when given, else the first component of `name`; '
+                    check.violation(rule, site_of(hp, site_), '%s: the name an import binds is `asname` when given, else the first component of `name`; '
                                     'found %s' % (hp.name, txt[:80]), key=key, witness='for ...: inner(*args, **kwargs); import os as kwargs')
                 continue
-            check.holds(rule, site_of(hp, t), '%s hands out %s.%s' % (hp.name, cname, fn), key=key)
+            check.holds(rule, site_of(hp, site_), '%s hands out %s.%s' % (hp.name, cname, fn), key=key)
         check.floor(rule, 'binding constructs required of %s' % hp.name, n, 8)
